@@ -284,6 +284,8 @@ func init() {
 			c01("H_parse", n(0), "quick", "parsed"), c01("H_parse", n(1), "quick", "parsed", "accepted", "rejected"),
 			c01("H_lex", n(2), "quick", "lexed"),
 			c01("H_parse", map[string]int{"n": 2, "ctx": 0}, "quick", "parsed"),
+			{Fn: "H_parse_cost", Setup: "Setup", Params: map[string]int{"d": 6}, Fuel: 300_000_000, Tier: "quick", Reach: []string{"parsed"}},
+			{Fn: "H_parse_cost", Setup: "Setup", Params: map[string]int{"d": 10}, Fuel: 600_000_000, Tier: "thorough", Reach: []string{"parsed"}},
 			c01("H_snip", n(0), "quick", "parsed", "accepted", "rejected", "ran"),
 			c01("H_snip", map[string]int{"n": 1, "lo": 0, "hi": 3}, "quickonly", "parsed", "accepted", "rejected", "ran"),
 			c01("H_snip", map[string]int{"n": 1, "lo": 26, "hi": 29}, "quickonly", "parsed", "accepted", "rejected", "ran"),
@@ -293,7 +295,7 @@ func init() {
 			c01("H_lex", map[string]int{"n": 3, "ctx": 0}, "thorough", "lexed"),
 		},
 		Rule: rule + "; the source is opener ‖ window (31 lexer-state openers, window = n arbitrary bytes at the end) or a one-construct snippet with the window inserted at / replacing every token (n=0: single-token deletion); " +
-			"exhausting the instruction budget (3·10^6 SSA instructions, inputs < 120 bytes) during lexing/parsing is reported as non-termination and replayed natively under a watchdog",
+			"exhausting the instruction budget (3·10^6 SSA instructions, inputs < 120 bytes) during lexing/parsing is reported as non-termination and replayed natively under a watchdog; H_parse_cost: 12 families nesting one construct d and d+4 levels deep, the exact SSA instruction count of the deeper parse may be at most 4x that of the shallower one (an exponential parser gives 16x)",
 		Assumptions: []string{"class autoload sees an empty file system", "running an accepted program gets a soft budget of 3·10^5 instructions (programs may legitimately loop); only a Go panic is a violation there"},
 		Outside:     []string{"windows longer than 3 bytes (2 inside snippets)", "holes in multi-construct files; the 330-file corpus as contexts", "HTML lexer (<!DOCTYPE path)", "convertAltPHPSyntax (.php mode, regexp based)", "stack-overflow depth (call depth capped at 3000 frames, never reached)"},
 	})
